@@ -1061,6 +1061,7 @@ func (eng *Engine) VerifyFunc(fn *ssa.Function, fc *FuncContract) (em *Emitter, 
 		}
 	}
 	ex.checkSitesExist(fc)
+	ex.checkScratchGhosts(fc, key)
 	ex.fireEvent("entry")
 	for _, u := range fc.Uses {
 		ex.useAxiom(u, env, "true") // instances of manual axioms over the entry state
